@@ -353,7 +353,7 @@ func (g *Gen) contractCall(in *ssa.Call, con *Contract, callee *ssa.Function, co
 		}
 		mayAlloc = true
 	} else {
-		for k := range g.modifiesKeys(con, cpkg) {
+		for _, k := range sortedKeys(g.modifiesKeys(con, cpkg)) {
 			g.heapGet(st, k, g.heapSortsM[k])
 			st.heaps[k] = g.freshConst("call."+k, g.heapSortsM[k])
 			mayAlloc = true
@@ -367,7 +367,8 @@ func (g *Gen) contractCall(in *ssa.Call, con *Contract, callee *ssa.Function, co
 	// ghost variables the contract does not list: preserved unless a function that may modify
 	// them is reachable from the callee (CHA call graph); bodiless callees preserve them
 	if callee != nil && !con.Trusted {
-		for gh, gv := range g.cs.Ghosts {
+		for _, gh := range sortedKeys(g.cs.Ghosts) {
+			gv := g.cs.Ghosts[gh]
 			if !containsStr(con.Modifies, gh) && g.prog.ghostMayModify(g.cs, gh, callee) {
 				st.ghost[gh] = g.freshConst("callgh."+gh, g.sortOf(g.resolveType(gv.Type, cpkg)))
 			}
